@@ -344,15 +344,15 @@ example : (lintFile spdxTable C06.demo ["b.c".toList, "LICENSES".toList, "nowher
 
 -- the composed statements: lint-file on a tree, and path resolution (`.`, `..`, a file used as a directory,
 -- a symlink, leaving the root)
-example (c : E2ECfg) : ∃ out e, lintFileE2E spdxTable c [("l", .symlink)] [] [] = .ok out e := by
+example (c : E2ECfg) : ∃ out e, lintFileE2E spdxTable c [("l", .symlink .dangling)] [] [] = .ok out e := by
   refine ⟨[], 0, ?_⟩
   simp [lintFileE2E, namedPaths, lintFile, subsetReport, generateOn, fmtSubset, one, two, subsetCompliant,
     Report.noLicence, Report.noCopyright, globalOf, hasDep5, subtree, elookup, tomlFiles, iterFiles, toNodes,
-    ENode.toNode, walkList, walkNode, projectOf, filesOf, coveredFiles, licFilesOf, findLicenses, findLoop]
-example : resolveArg [("d", .dir [("a", .file [1])]), ("l", .symlink)] ["d"] ⟨false, ["..", "d", ".", "a"]⟩ = .found ["d", "a"] := by decide
-example : resolveArg [("d", .dir [("a", .file [1])]), ("l", .symlink)] ["d"] ⟨false, ["a", ".."]⟩ = .missing := by decide
-example : resolveArg [("d", .dir [("a", .file [1])]), ("l", .symlink)] [] ⟨true, ["l"]⟩ = .missing := by decide
-example : resolveArg [("d", .dir [("a", .file [1])]), ("l", .symlink)] ["d"] ⟨false, ["..", ".."]⟩ = .outside := by decide
+    ENode.toNode, walkList, walkNode, projectOf, filesOf, coveredFiles, licFilesOf, licPathsOf, findLicenses, findLoop]
+example : resolveArg [("d", .dir [("a", .file [1])]), ("l", .symlink .dangling)] ["d"] ⟨false, ["..", "d", ".", "a"]⟩ = .found ["d", "a"] := by decide
+example : resolveArg [("d", .dir [("a", .file [1])]), ("l", .symlink .dangling)] ["d"] ⟨false, ["a", ".."]⟩ = .missing := by decide
+example : resolveArg [("d", .dir [("a", .file [1])]), ("l", .symlink .dangling)] [] ⟨true, ["l"]⟩ = .missing := by decide
+example : resolveArg [("d", .dir [("a", .file [1])]), ("l", .symlink .dangling)] ["d"] ⟨false, ["..", ".."]⟩ = .outside := by decide
 example : resolveFrom [("d", .dir [("a", .file [1])])] [] ["d"] = .found ["d"] := by decide
 
 -- ... and the naming / well-formedness hypotheses of the bijection statements
